@@ -289,7 +289,8 @@ class DiagLinearOperator(TriangularLinearOperator):
         evals, evecs = self._symeig(eigenvectors=True)
         S = torch.abs(evals)
         U = evecs
-        V = evecs * torch.sign(evals).unsqueeze(-1)
+        signs = torch.where(evals < 0, -torch.ones_like(evals), torch.ones_like(evals))
+        V = DiagLinearOperator(signs)
         return U, S, V
 
     def _symeig(
